@@ -65,4 +65,9 @@ impl IntKindInfo { pub fn is_signed(&self) -> (r: bool) ensures r == self.signed
 pub uninterp spec fn s_int_kind_of(ty: TypeId, ctx: &BindgenContext) -> IntKindInfo;
 #[verifier::external_body] pub fn resolved_int_kind(ty: TypeId, ctx: &BindgenContext) -> (r: IntKindInfo) ensures r == s_int_kind_of(ty, ctx) { unimplemented!() }
 
+// `o.map(EnumVariantValue::X)` (rule R7: Option::map with an enum constructor)
+pub fn opt_map_Boolean(o: Option<bool>) -> (r: Option<EnumVariantValue>) ensures r == (match o { Some(v) => Some(EnumVariantValue::Boolean(v)), None => None }) { match o { Some(v) => Some(EnumVariantValue::Boolean(v)), None => None } }
+pub fn opt_map_Signed(o: Option<i64>) -> (r: Option<EnumVariantValue>) ensures r == (match o { Some(v) => Some(EnumVariantValue::Signed(v)), None => None }) { match o { Some(v) => Some(EnumVariantValue::Signed(v)), None => None } }
+pub fn opt_map_Unsigned(o: Option<u64>) -> (r: Option<EnumVariantValue>) ensures r == (match o { Some(v) => Some(EnumVariantValue::Unsigned(v)), None => None }) { match o { Some(v) => Some(EnumVariantValue::Unsigned(v)), None => None } }
+
 } // verus!
